@@ -429,6 +429,8 @@ def run(tier, seed, result):
             st = e1.explore('c08', params, result, max_depth=30)
             closure = closure and st['closure']
             notes.append(f'async={is_async} {kind}: {st}')
+    from . import c08_sched
+    notes.append(c08_sched.run(tier, seed, result))
     result.assumptions += [
         'reconnection disabled (C10 owns it); engine.io client is the real '
         'class with the transport cut',
